@@ -11,6 +11,53 @@ use ark_ff::{FftField, PrimeField};
 #[cfg(not(feature = "std"))]
 use ark_std::vec::Vec;
 
+/// `BrakedownPCParams::new` with every matrix given as the column-major flat list that
+/// `SprsMat::new_from_flat` takes (`SprsMat` itself is not exported by the library).
+#[allow(clippy::too_many_arguments)]
+pub fn brakedown_params_from_flat<F: PrimeField, C: Config, H: CRHScheme>(
+    sec_param: usize,
+    a: (usize, usize),
+    b: (usize, usize),
+    r: (usize, usize),
+    base_len: usize,
+    n: usize,
+    m: usize,
+    a_dims: Vec<(usize, usize, usize)>,
+    b_dims: Vec<(usize, usize, usize)>,
+    a_flat: &[Vec<F>],
+    b_flat: &[Vec<F>],
+    check_well_formedness: bool,
+    leaf_hash_param: ark_crypto_primitives::merkle_tree::LeafParam<C>,
+    two_to_one_hash_param: ark_crypto_primitives::merkle_tree::TwoToOneParam<C>,
+    col_hash_params: H::Parameters,
+) -> super::BrakedownPCParams<F, C, H> {
+    let mk = |dims: &[(usize, usize, usize)], flat: &[Vec<F>]| {
+        dims.iter()
+            .zip(flat)
+            .map(|(&(n, m, d), l)| super::utils::SprsMat::new_from_flat(n, m, d, l))
+            .collect::<Vec<_>>()
+    };
+    let a_mats = mk(&a_dims, a_flat);
+    let b_mats = mk(&b_dims, b_flat);
+    super::BrakedownPCParams::new(
+        sec_param,
+        a,
+        b,
+        r,
+        base_len,
+        n,
+        m,
+        a_dims,
+        b_dims,
+        a_mats,
+        b_mats,
+        check_well_formedness,
+        leaf_hash_param,
+        two_to_one_hash_param,
+        col_hash_params,
+    )
+}
+
 /// `linear_codes::utils::get_num_bytes`
 pub fn get_num_bytes(n: usize) -> usize {
     super::utils::get_num_bytes(n)
